@@ -96,6 +96,8 @@ class ActiveMonitor : public Monitor {
   bool c02, c03;
   enum Ph { NONE, ARB, ARMED, AUTOSYN, SENDING, WAIT_ACK, RESP, SEND_ACK, ACK_ECHO, SEND_SYN, SYN_ECHO, FAILED_CLOSING, DISTURBED };
   Ph autosynFrom = NONE;
+  bool armedSyn = false;       // a SYN was seen since arming: the adapter is arbitrating now
+  bool armedTimeout = false;   // a receive timeout passed while the adapter was armed: a win reported after it is late
   bool lossWinnerMaster = false, lossTraffic = false;
   Ph ph = NONE;
   std::vector<int> pending;   // per request: in flight
@@ -150,9 +152,9 @@ class ActiveMonitor : public Monitor {
     std::vector<int> c;
     for (size_t i = 0; i < pending.size(); i++) if (pending[i] && sc.reqs[i].master[0] == addr) c.push_back((int)i);
     if (c.empty()) { v3("arbitration-without-request", "START(" + hx(addr) + ") although no request with that source is pending"); return; }
-    if (ph != NONE && ph != ARMED) { v3("arbitration-during-exchange/" + phName(), "START(" + hx(addr) + ") while " + phName()); return; }
+    if (ph != NONE && ph != ARMED && ph != DISTURBED) { v3("arbitration-during-exchange/" + phName(), "START(" + hx(addr) + ") while " + phName()); return; }
     if (synsSinceLoss >= 0 && synsSinceLoss < 1) v3(std::string("arbitration-too-early-after-loss/enh/") + (lossWinnerMaster ? "winner-master/" : "winner-other/") + (lossTraffic ? "traffic" : "address-only"), "START issued before any SYN after the lost arbitration");
-    ph = ARMED; arbAddr = addr; cands = c;
+    ph = ARMED; arbAddr = addr; cands = c; armedTimeout = false; armedSyn = false;
   }
 
   void onWrite(uint8_t v) override {
@@ -229,6 +231,7 @@ class ActiveMonitor : public Monitor {
       case ARMED:
         if (kind == 1 && v == arbAddr) {
           if (cands.empty()) { v3("arbitration-won-without-request", "the adapter won an arbitration for " + hx(v) + " that was not cancelled although its request is gone"); ph = NONE; break; }
+          if (armedTimeout) { ph = DISTURBED; armedTimeout = false; break; }  // the win is reported late (after a timeout): continuing is not fixed by the statement
           ph = SENDING; wpos = 0; repeat = false; echoPending = false; valid = false; notified = false; reported = false;
         } else if (kind == 2 || kind == 1) { exchangeFailed(true); synsSinceLoss = v == ref::SYN ? -1 : 0; lossWinnerMaster = ref::isMaster(v); lossTraffic = false; }
         break;
@@ -315,6 +318,7 @@ class ActiveMonitor : public Monitor {
         break;
     }
     if (syn && ph == DISTURBED) ph = NONE;
+    if (syn && ph == ARMED) armedSyn = true;
     if (synsSinceLoss >= 0 && !syn && was != ARB && was != ARMED) lossTraffic = true;
     if (syn) {
       silentUntilSyn = false;
@@ -330,7 +334,7 @@ class ActiveMonitor : public Monitor {
     silenceMs += ms;
     if (silenceMs > 100000) silenceMs = 100000;
     loneSyn = false;
-    if (ph == ARMED) return;  // the adapter keeps the request armed
+    if (ph == ARMED) { if (armedSyn) armedTimeout = true; return; }  // the adapter keeps the request armed
     if (ph == DISTURBED) { ph = NONE; return; }
     if (ph != NONE) exchangeFailed(true);
   }
@@ -343,6 +347,7 @@ class ActiveMonitor : public Monitor {
 
   void onReport(int dir, const Bytes& m, const Bytes& s) override {
     if (failed || dir != 1) return;
+    if (ph == DISTURBED) return;  // outcome not fixed by the statement
     if (!valid || cands.empty()) { v2("false-sent-report", "reported " + ref::hex(m) + " as sent although the exchange was not valid (" + phName() + ")"); return; }
     bool ok = false;
     for (int r : cands) if (sc.reqs[r].master == m) ok = true;
@@ -354,7 +359,7 @@ class ActiveMonitor : public Monitor {
 
   void onNotify(int r, int result, const Bytes& slave, bool restart) override {
     if (!restart) pending[r] = 0;
-    if (failed) return;
+    if (failed || ph == DISTURBED) return;
     bool mine = false;
     for (int c : cands) if (c == r) mine = true;
     bool inExchange = mine && ph != NONE && ph != ARB && ph != ARMED;
@@ -399,7 +404,7 @@ class ActiveMonitor : public Monitor {
     o->push_back((char)ph); o->push_back((char)(wpos));
     o->push_back((char)(repeat | (echoPending << 1) | (valid << 2) | (notified << 3) | (reported << 4) | (silentUntilSyn << 5) | (loneSyn << 6) | (generator << 7)));
     o->push_back((char)(failed | (resc << 1) | (rcrcPos << 2) | (rGood << 3) | (attemptS << 4)));
-    o->push_back((char)(autosynFrom | (lossWinnerMaster << 4) | (lossTraffic << 5)));
+    o->push_back((char)(autosynFrom | (lossWinnerMaster << 4) | (lossTraffic << 5) | (armedTimeout << 6) | (armedSyn << 7)));
     o->push_back((char)lastW); o->push_back((char)arbAddr); o->push_back((char)(synsSinceLoss + 1)); o->push_back((char)rcrc);
     int sm = silenceMs >= 40 ? (silenceMs >= (int)(10 * ref::masterNumber(sc.own) + 51) ? 2 : 1) : 0;
     o->push_back((char)sm);
